@@ -40,15 +40,15 @@ type Fault struct {
 
 // MemFile implements io.ReaderAt, io.WriterAt, io.Writer and Truncate.
 type MemFile struct {
-	mu     sync.Mutex
-	data   []byte
-	cursor int64
-	events []Event
-	writes int
-	faults map[int]int
+	mu      sync.Mutex
+	data    []byte
+	cursor  int64
+	events  []Event
+	writes  int
+	faults  map[int]int
 	Faulted int // number of faults that fired
 	// Hook, when set, is called (without the lock) before every write with its ordinal.
-	Hook func(ord int)
+	Hook  func(ord int)
 	NoLog bool
 }
 
